@@ -9,7 +9,10 @@ Four parts, all bound to the real lib/proto built from /repo's working tree:
           (spec/C20Hist.tla, history + VIEW + ACTION_CONSTRAINT) plus seeded simulation traces
           beyond them; `vh c20-hist` replays each history as Starlark statements on the real
           code and compares after every step the content of every handle (read through the
-          API, through binary and through text marshal/unmarshal) with the model.
+          API, through binary and through text marshal/unmarshal) with the model.  Message T has
+          fields i, sub, r, rm, mp and mm (map<string, T>); message handles are obtained from variables,
+          fields, elements, map entries and through the snapshot routes dict(m.mm), d.update(m.mm),
+          f(**m.mm), list(m.rm), which must all denote the message of m and be frozen with it.
  range    code -> spec (P-A): every scalar kind x boundary / wrong-type values x positions,
           executed by `vh c20-exec`, every record validated by TLC against spec/ProtoRange.tla
           (spec/C20Trace.tla).
@@ -53,12 +56,17 @@ def design(ctx):
 
 SHARE = {"copy": "copy", "setsub": "assign-msg", "setsubfrom": "assign-submsg", "setrm": "assign-msglist",
          "setrmfrom": "assign-msglist-from", "rm.append": "append-msg", "vm.append": "append-msg",
-         "rm.set0": "setitem-msg"}
+         "rm.set0": "setitem-msg", "setmm": "assign-msgmap"}
+# snapshot routes: a message handle taken from a copy of a container's entries (dict(m.mm), d.update(m.mm),
+# f(**m.mm), list(m.rm)).  The handle belongs to the group of the message it was taken from; the route is the
+# sharing step of a freeze bypass only when the mutation comes through such a handle of the frozen group itself.
+SNAP = {"snap.mm0": "map-items", "vals.mm0": "map-items", "items.mm0": "map-items", "snap.rm0": "list-iteration"}
 OPS_QUICK = ["new", "copy", "freeze", "seti", "setsub", "setsubnew", "setsubfrom", "setr", "setrfrom", "setrm", "setrmnew",
-             "setrmfrom", "setmp", "setmpfrom", "sub.seti", "r.append", "r.set0", "rm0.seti", "mp.setb", "view.sub", "view.r",
-             "view.rm", "view.mp", "view.rm0", "v.append", "v.set0", "v0.seti", "v.setb", "clr.i", "clr.sub", "clr.r", "clr.rm", "clr.mp"]
+             "setrmfrom", "setmp", "setmpfrom", "setmm", "setmmnew", "sub.seti", "r.append", "r.set0", "rm0.seti", "mp.setb",
+             "mm0.seti", "view.sub", "view.r", "view.rm", "view.mp", "view.rm0", "view.mm0", "snap.mm0", "vals.mm0", "items.mm0",
+             "snap.rm0", "v.append", "v.set0", "v0.seti", "v.setb", "clr.i", "clr.sub", "clr.r", "clr.rm", "clr.mp", "clr.mm"]
 OPS_RICH = ["rm.append", "rm.set0", "vm.append"]
-CREATES = ("new", "copy", "view.sub", "view.r", "view.rm", "view.mp", "view.rm0")
+CREATES = ("new", "copy", "view.sub", "view.r", "view.rm", "view.mp", "view.rm0", "view.mm0") + tuple(SNAP)
 
 
 def annotate(ops):
@@ -86,6 +94,12 @@ def signature(primary, ops, created, root):
         fr = [o for o in ops if o[0] == "freeze"]
         rf = fr[-1][1] if fr else None
         rm = root.get(last[1])
+        nfr = max([j for j, o in enumerate(ops) if o[0] == "freeze"] or [-1])
+        via = [o for j, (o, c) in enumerate(zip(ops[:-1], created[:-1])) if c and c == last[1] and o[0] in SNAP and j < nfr]
+        if via and rf == rm:
+            # the mutation came through a handle of the frozen group itself, obtained BEFORE the freeze
+            # through a snapshot of a container's entries: the snapshot route is the sharing step
+            return "proto:freeze-bypass/snapshot-%s+mutate-entry" % SNAP[via[0][0]]
         cands = [(o, c) for o, c in zip(ops[:-1], created[:-1]) if o[0] in SHARE]
         rel = ([x for x in cands if rf != rm and rf in ends(*x) and rm in ends(*x)]
                or [x for x in cands if rf in ends(*x)] or cands)
@@ -98,7 +112,8 @@ def signature(primary, ops, created, root):
         else:
             side = "mutate-dest" if rf == src else "mutate-source"
         # every entry point that stores a message given by the program (field, sub-message of another
-        # message, list literal, list copy, append, element assignment) aliases it the same way
+        # message, list literal, list copy, append, element assignment, value of a map literal) aliases
+        # it the same way
         return "proto:freeze-bypass/%s+%s" % ("copy" if o[0] == "copy" else "assign-msg", side)
     if primary == "cyclic-message":
         # one owner of a list shared by Message(m) stores the other owner into it
@@ -244,7 +259,7 @@ def hist_part(ctx):
         sig = signature(rp["primary"], rp["ops"], rp["created"], rp["root"])
         e = bysig.setdefault(sig, {"count": 0, "rep": rp, "variants": set()})
         e["count"] += rp["count"]
-        e["variants"].add(",".join(o[0] for o in rp["ops"] if o[0] in SHARE or o is rp["ops"][-1]))
+        e["variants"].add(",".join(o[0] for o in rp["ops"] if o[0] in SHARE or o[0] in SNAP or o is rp["ops"][-1]))
         srcs = lambda x: (len(x["steps"]), [t["src"] for t in x["steps"]])
         if srcs(rp) < srcs(e["rep"]):
             e["rep"] = rp
@@ -616,6 +631,7 @@ CYCLES = [
     (["a = T()", "m = T()", "a.rm = [m]"], "m.sub = a", "str(m)"),
     (["m = T()"], "m.sub = {'sub': m}", "str(m)"),
     (["m = T()", "m.rm = [T()]", "c = T(m)"], "m.rm = [c]", "str(m)"),
+    (["m = T()"], 'm.mm = {"k": m}', "str(m)"),
     (["m = T()"], "m.sub = m", "proto.marshal(m)"),
     (["m = T()"], "m.sub = m", "proto.marshal_text(m)"),
     (["m = T()"], "m = T(sub = m)", "str(m)"),      # control: a fresh message containing m is a tree
@@ -663,7 +679,10 @@ def run(ctx):
         "a repeated field is assigned by copying the elements into the field's list, a map field is replaced); a divergence from these "
         "rules that does not break the property is reported as a machinery failure, not as a violation",
         "Freeze is applied to message variables (constructed or copied); freezing a view wrapper directly is not generated",
-        "scalar values of the history model are 1 and 2, repeated fields hold at most 2 elements, map keys are 'a' and 'b'",
+        "scalar values of the history model are 1 and 2, repeated fields hold at most 2 elements, map keys are 'a' and 'b'; "
+        "the map<string, T> field holds at most the one entry 'k' and is only assigned as a whole (no insertion through a view of it)",
+        "a map field has no items()/values() methods in lib/proto: the snapshot routes of a map are dict(m.mm), dict.update(m.mm) and "
+        "keyword expansion f(**m.mm) (all MapField.Items()); list(m.rm) is the iteration route of a repeated field",
         "float kinds: only values representable in the field's type are required to read back exactly (rounding is not judged)",
         "messages are built from descriptors created with descriptorpb/protodesc/dynamicpb (no generated Go types)",
     ]
